@@ -124,18 +124,38 @@ func (x *c18Exec) guard(what string, f func()) {
 	defer func() {
 		if p := recover(); p != nil {
 			st := debug.Stack()
-			x.fail("panic:"+c18PanicSite(st), "%s panicked outside the handler's recover (the process would die): %v\n%s", what, p, c18TrimStack(st))
+			x.fail("panic:"+c18PanicSite(st), "%s panicked outside the handler's recover (the process would die): %v; stack: %s", what, p, c18TrimStack(st))
 		}
 	}()
 	f()
 }
 
+// c18TrimStack keeps the frames between the panic and the harness.
 func c18TrimStack(st []byte) string {
-	s := string(st)
-	if len(s) > 1800 {
-		s = s[:1800]
+	lines := strings.Split(string(st), "\n")
+	start := 0
+	for i, l := range lines {
+		if strings.HasPrefix(l, "panic(") {
+			start = i + 2
+			break
+		}
 	}
-	return s
+	var out []string
+	for i := start; i+1 < len(lines) && len(out) < 12; i += 2 {
+		if strings.Contains(lines[i+1], "zz_verif") {
+			break
+		}
+		fn := lines[i]
+		if j := strings.LastIndex(fn, "("); j > 0 {
+			fn = fn[:j]
+		}
+		file := strings.TrimSpace(lines[i+1])
+		if j := strings.Index(file, " +0x"); j > 0 {
+			file = file[:j]
+		}
+		out = append(out, fn+" "+file)
+	}
+	return strings.Join(out, " <- ")
 }
 
 func c18RdBuf(mode int, server bool) int {
@@ -192,7 +212,7 @@ func (x *c18Exec) ServeHTTP(w http.ResponseWriter, r *http.Request) {
 		if p := recover(); p != nil {
 			if p != http.ErrAbortHandler {
 				st := debug.Stack()
-				x.fail("panic:"+c18PanicSite(st), "request %d (%v): library code called from the handler panicked: %v\n%s", idx, m, p, c18TrimStack(st))
+				x.fail("panic:"+c18PanicSite(st), "request %d (%v): library code called from the handler panicked: %v; stack: %s", idx, m, p, c18TrimStack(st))
 			}
 			panic(http.ErrAbortHandler)
 		}
@@ -738,9 +758,6 @@ func (x *c18Exec) judge() {
 			ign := map[string]bool{}
 			for k := range c18IgnoreRespHdr {
 				ign[k] = true
-			}
-			if so.gz {
-				ign["Content-Encoding"] = true
 			}
 			if d := c18HeaderDiff("response header", c18RespHeader(m, idx), co.header, ign, false); d != "" {
 				x.fail("response-header-altered", "%s: %s", tag, d)
